@@ -2,6 +2,7 @@
 pub mod deflate;
 pub mod excel;
 pub mod sqpack;
+pub mod zipatch;
 
 #[derive(Default, Clone)]
 pub struct W {
